@@ -120,7 +120,12 @@ def compile_db(view, scratch):
             tests.append(e)
     if not lib:
         raise AnalysisBroken('no library units in compile database (view %s)' % view)
-    return lib, tests, bdir
+    # de-duplicated database (library target only): ClangTool would otherwise run every entry of a file
+    # (the test targets recompile two units with the sequencer compiled out) and the last one would win
+    ddir = os.path.join(scratch, 'db-' + view)
+    os.makedirs(ddir, exist_ok=True)
+    json.dump(list(lib.values()), open(os.path.join(ddir, 'compile_commands.json'), 'w'))
+    return lib, tests, ddir
 
 
 def _flags(entry):
@@ -193,7 +198,7 @@ def extract_ir(view, outdir, scratch):
         jobs.append((u, cmd, bc))
     def work(j):
         u, cmd, bc = j
-        r = _run(cmd, cwd=bdir)
+        r = _run(cmd, cwd=scratch)
         return u, r.returncode, r.stderr, bc
     with ThreadPoolExecutor(16) as ex:
         res = list(ex.map(work, jobs))
